@@ -178,6 +178,18 @@ class C13(Property):
         pos = np.array(spec["position"], float)
         amps = np.array(spec["amplitudes"], float)
         s = float(sum(w * abs(a) for w, a in zip(spec["weights"], amps)))
+        if spec["cls"] != "PerturbedDroplet2D":
+            # a droplet of the sibling 3-D class with the same number of modes, queried first, must leave no trace
+            try:
+                twin = D.PerturbedDroplet3DAxisSym if spec["cls"] == "PerturbedDroplet3D" else D.PerturbedDroplet3D
+                tw = twin(np.array([0.0, 0.0, pos[2]]), R0, spec["width"], amps[::-1].copy())
+                if twin is D.PerturbedDroplet3D:
+                    tw.interface_curvature(np.array([0.7]), np.array([0.3])), tw.interface_distance(np.array([0.7]), np.array([0.3]))
+                else:
+                    tw.interface_curvature(np.array([0.7])), tw.interface_distance(np.array([0.7]))
+                tw.volume, tw.volume_approx
+            except Exception:  # noqa: BLE001 - not judged
+                pass
         d = cls(pos, R0, spec["width"], amps)
         nz = int(np.count_nonzero(amps))
         ctx.cls(spec["cls"], spec["regime"], f"nonzero-modes:{min(nz, 3)}{'+' if nz > 3 else ''}")
